@@ -1,4 +1,8 @@
 import Votca.Lemmas.C03
+import Votca.Props.C02
+import Mathlib.Data.List.Nodup
+import Mathlib.Tactic.Linarith
+import Mathlib.Tactic.LinearCombination
 import Votca.Lemmas.Vec3
 import Mathlib.Tactic.Positivity
 import Mathlib.Tactic.FieldSimp
@@ -258,5 +262,352 @@ theorem excluded_symm (interactions : List (List Nat)) (mol : Nat → Nat) (i j 
 /-! non-vacuity: three cells per direction, a pair across the periodic boundary -/
 example : (cellsFor (3, 3, 3) (0, 0, 0)).length = 27 := by decide
 example : (cellsFor (2, 3, 2) (1, 2, 0)).Nodup := by decide
+
+/-! # three-dimensional assembly: the cell lists of `NBListGrid` meet the hypotheses of `grid_exact`
+
+`grid_exact` / `grid_exact2` are stated for abstract cells: duplicate-free cell lists that contain the cell of every bead
+within the cutoff.  Here both hypotheses are *proved* for the concrete construction (`cellOf`, `cellsFor`, `cellCounts`)
+in any periodic box with non-zero determinant, orthorhombic or triclinic, for any cutoff — also when the box is smaller than
+the cutoff in some direction (one cell) or holds exactly two cells — and the end-to-end statement follows: the grid search
+on real coordinates reports exactly the brute-force pairs. -/
+
+/-! ## one direction -/
+
+/-- one direction.  `g` is the scaled normal of the direction, `m` the number of box periods between the two points along it:
+    when the connection vector spans less than one cell (or there is a single cell) the wrapped cell index of `pu` is the
+    wrapped index of `pv` shifted by one of the scanned offsets, exactly in the form `InitializeGrid` computes it. -/
+theorem dir_adjacent (g pu pv r : V3) (N : Nat) (hN : 0 < N) (m : Int)
+    (hsplit : V3.dot pv g - V3.dot pu g = V3.dot r g + ((m * (N : Int) : Int) : Rat))
+    (hshort : N = 1 ∨ |V3.dot r g| < 1) :
+    ∃ o ∈ nbrOffsets N, wrapIndex (V3.dot pu g).floor N = (wrapIndex (V3.dot pv g).floor N + (N : Int) + o) % (N : Int) := by
+  have hNi : (0 : Int) < (N : Int) := by exact_mod_cast hN
+  rw [wrapIndex_eq_emod _ _ hNi, wrapIndex_eq_emod _ _ hNi]
+  rcases hshort with h1 | hshort
+  · subst h1
+    exact ⟨0, by simp [nbrOffsets], by simp [Int.emod_one]⟩
+  · have habs : |V3.dot pu g - V3.dot pv g - (((-m) * (N : Int) : Int) : Rat)| < 1 := by
+      have e : V3.dot pu g - V3.dot pv g - (((-m) * (N : Int) : Int) : Rat) = -(V3.dot r g) := by
+        push_cast at hsplit ⊢; linarith
+      rw [e, abs_neg]; exact hshort
+    obtain ⟨δ, hδ, hmod⟩ := cell_adjacent (V3.dot pu g) (V3.dot pv g) (N : Int) (-m) habs
+    obtain ⟨o, ho, hmo⟩ := nbrOffsets_complete N hN δ hδ
+    refine ⟨o, ho, ?_⟩
+    have hd1 : (N : Int) ∣ (V3.dot pu g).floor - (V3.dot pv g).floor - δ := Int.dvd_of_emod_eq_zero hmod
+    have hd2 : (N : Int) ∣ δ - o := Int.dvd_of_emod_eq_zero hmo
+    have hd : (N : Int) ∣ (V3.dot pu g).floor - ((V3.dot pv g).floor + o) := by
+      have : (V3.dot pu g).floor - ((V3.dot pv g).floor + o) = ((V3.dot pu g).floor - (V3.dot pv g).floor - δ) + (δ - o) := by ring
+      rw [this]; exact Int.dvd_add hd1 hd2
+    have e1 : (V3.dot pu g).floor % (N : Int) = ((V3.dot pv g).floor + o) % (N : Int) :=
+      Int.emod_eq_emod_iff_emod_sub_eq_zero.2 (Int.emod_eq_zero_of_dvd hd)
+    rw [e1]
+    have e2 : (V3.dot pv g).floor % (N : Int) + (N : Int) + o = ((V3.dot pv g).floor % (N : Int) + o) + (N : Int) := by ring
+    rw [e2, Int.add_emod_right, Int.emod_add_emod]
+
+/-! ## the scaled normals of the other two directions are dual to the box vectors as well -/
+
+theorem scaledNormal_dual_b (B : Box) (N : Nat) (hdet : B.det ≠ 0) :
+    V3.dot B.a (scaledNormal (V3.cross B.c B.a) B.det N) = 0 ∧
+    V3.dot B.b (scaledNormal (V3.cross B.c B.a) B.det N) = N ∧
+    V3.dot B.c (scaledNormal (V3.cross B.c B.a) B.det N) = 0 := by
+  refine ⟨?_, ?_, ?_⟩
+  · simp only [scaledNormal, V3.dot, V3.cross, smul_x, smul_y, smul_z]; ring
+  · have : V3.dot B.b (scaledNormal (V3.cross B.c B.a) B.det N) = (N : Rat) / B.det * B.det := by
+      simp only [scaledNormal, V3.dot, V3.cross, Box.det, smul_x, smul_y, smul_z]; ring
+    rw [this]; field_simp
+  · simp only [scaledNormal, V3.dot, V3.cross, smul_x, smul_y, smul_z]; ring
+
+theorem scaledNormal_dual_c (B : Box) (N : Nat) (hdet : B.det ≠ 0) :
+    V3.dot B.a (scaledNormal (V3.cross B.a B.b) B.det N) = 0 ∧
+    V3.dot B.b (scaledNormal (V3.cross B.a B.b) B.det N) = 0 ∧
+    V3.dot B.c (scaledNormal (V3.cross B.a B.b) B.det N) = N := by
+  refine ⟨?_, ?_, ?_⟩
+  · simp only [scaledNormal, V3.dot, V3.cross, smul_x, smul_y, smul_z]; ring
+  · simp only [scaledNormal, V3.dot, V3.cross, smul_x, smul_y, smul_z]; ring
+  · have : V3.dot B.c (scaledNormal (V3.cross B.a B.b) B.det N) = (N : Rat) / B.det * B.det := by
+      simp only [scaledNormal, V3.dot, V3.cross, Box.det, smul_x, smul_y, smul_z]; ring
+    rw [this]; field_simp
+
+/-- the dot product with a covector splits over `r + lattice` -/
+theorem dot_image_split (B : Box) (g pu pv r : V3) (k1 k2 k3 : Int) (himg : pv - pu = r + B.lattice k1 k2 k3) :
+    V3.dot pv g - V3.dot pu g = V3.dot r g + ((k1 : Rat) * V3.dot B.a g + (k2 : Rat) * V3.dot B.b g + (k3 : Rat) * V3.dot B.c g) := by
+  have hx := congrArg V3.x himg
+  have hy := congrArg V3.y himg
+  have hz := congrArg V3.z himg
+  simp only [Box.lattice, sub_x, sub_y, sub_z, add_x, add_y, add_z, smul_x, smul_y, smul_z] at hx hy hz
+  simp only [V3.dot]
+  have ex : pv.x = pu.x + (r.x + ((k1 : Rat) * B.a.x + (k2 : Rat) * B.b.x + (k3 : Rat) * B.c.x)) := by linarith
+  have ey : pv.y = pu.y + (r.y + ((k1 : Rat) * B.a.y + (k2 : Rat) * B.b.y + (k3 : Rat) * B.c.y)) := by linarith
+  have ez : pv.z = pu.z + (r.z + ((k1 : Rat) * B.a.z + (k2 : Rat) * B.b.z + (k3 : Rat) * B.c.z)) := by linarith
+  rw [ex, ey, ez]; ring
+
+/-! ## membership in the cell list -/
+
+/-- an element of the offset product is in `cellsFor` (own cell first, the others after the `!= c` filter) -/
+theorem mem_cellsFor (Ns : Nat × Nat × Nat) (c : Cell) (oa ob oc : Int)
+    (ha : oa ∈ nbrOffsets Ns.1) (hb : ob ∈ nbrOffsets Ns.2.1) (hc : oc ∈ nbrOffsets Ns.2.2) :
+    ((c.1 + (Ns.1 : Int) + oa) % (Ns.1 : Int), (c.2.1 + (Ns.2.1 : Int) + ob) % (Ns.2.1 : Int),
+      (c.2.2 + (Ns.2.2 : Int) + oc) % (Ns.2.2 : Int)) ∈ cellsFor Ns c := by
+  obtain ⟨na, nb, nc⟩ := Ns
+  simp only [cellsFor]
+  by_cases heq : ((c.1 + (na : Int) + oa) % (na : Int), (c.2.1 + (nb : Int) + ob) % (nb : Int), (c.2.2 + (nc : Int) + oc) % (nc : Int)) = c
+  · rw [heq]; exact List.mem_cons_self
+  · apply List.mem_cons_of_mem
+    rw [List.mem_filter]
+    refine ⟨?_, by simpa using heq⟩
+    rw [List.mem_flatMap]
+    refine ⟨oa, ha, ?_⟩
+    rw [List.mem_flatMap]
+    refine ⟨ob, hb, ?_⟩
+    rw [List.mem_map]
+    exact ⟨oc, hc, rfl⟩
+
+/-- **completeness of the cell list, three dimensions.**  Two points one of whose periodic images is closer than the cutoff
+    lie in listed cells of each other, provided every direction either has one cell or cells at least one cutoff high. -/
+theorem neighbour_cell_listed (B : Box) (Ns : Nat × Nat × Nat) (rc : Rat) (pu pv r : V3) (k1 k2 k3 : Int)
+    (hdet : B.det ≠ 0) (hrc : 0 < rc) (h1 : 0 < Ns.1) (h2 : 0 < Ns.2.1) (h3 : 0 < Ns.2.2)
+    (ha : Ns.1 = 1 ∨ ((Ns.1 : Rat) * rc) ^ 2 * (V3.cross B.b B.c).normSq ≤ B.det ^ 2)
+    (hb : Ns.2.1 = 1 ∨ ((Ns.2.1 : Rat) * rc) ^ 2 * (V3.cross B.c B.a).normSq ≤ B.det ^ 2)
+    (hc : Ns.2.2 = 1 ∨ ((Ns.2.2 : Rat) * rc) ^ 2 * (V3.cross B.a B.b).normSq ≤ B.det ^ 2)
+    (hr : r.normSq < rc * rc) (himg : pv - pu = r + B.lattice k1 k2 k3) :
+    cellOf B Ns pu ∈ cellsFor Ns (cellOf B Ns pv) := by
+  obtain ⟨da1, da2, da3⟩ := scaledNormal_dual B Ns.1 hdet
+  obtain ⟨db1, db2, db3⟩ := scaledNormal_dual_b B Ns.2.1 hdet
+  obtain ⟨dc1, dc2, dc3⟩ := scaledNormal_dual_c B Ns.2.2 hdet
+  have sa := dot_image_split B (scaledNormal (V3.cross B.b B.c) B.det Ns.1) pu pv r k1 k2 k3 himg
+  have sb := dot_image_split B (scaledNormal (V3.cross B.c B.a) B.det Ns.2.1) pu pv r k1 k2 k3 himg
+  have sc := dot_image_split B (scaledNormal (V3.cross B.a B.b) B.det Ns.2.2) pu pv r k1 k2 k3 himg
+  rw [da1, da2, da3] at sa
+  rw [db1, db2, db3] at sb
+  rw [dc1, dc2, dc3] at sc
+  obtain ⟨oa, hoa, ea⟩ := dir_adjacent (scaledNormal (V3.cross B.b B.c) B.det Ns.1) pu pv r Ns.1 h1 k1
+    (by rw [sa]; push_cast; ring)
+    (ha.imp id fun h => short_vector_within_one_cell r _ B.det rc Ns.1 hdet hrc h hr)
+  obtain ⟨ob, hob, eb⟩ := dir_adjacent (scaledNormal (V3.cross B.c B.a) B.det Ns.2.1) pu pv r Ns.2.1 h2 k2
+    (by rw [sb]; push_cast; ring)
+    (hb.imp id fun h => short_vector_within_one_cell r _ B.det rc Ns.2.1 hdet hrc h hr)
+  obtain ⟨oc, hoc, ec⟩ := dir_adjacent (scaledNormal (V3.cross B.a B.b) B.det Ns.2.2) pu pv r Ns.2.2 h3 k3
+    (by rw [sc]; push_cast; ring)
+    (hc.imp id fun h => short_vector_within_one_cell r _ B.det rc Ns.2.2 hdet hrc h hr)
+  have hm := mem_cellsFor Ns (cellOf B Ns pv) oa ob oc hoa hob hoc
+  have hcell : cellOf B Ns pu = ((( cellOf B Ns pv).1 + (Ns.1 : Int) + oa) % (Ns.1 : Int),
+      ((cellOf B Ns pv).2.1 + (Ns.2.1 : Int) + ob) % (Ns.2.1 : Int), ((cellOf B Ns pv).2.2 + (Ns.2.2 : Int) + oc) % (Ns.2.2 : Int)) := by
+    simp only [cellOf] at ea eb ec ⊢
+    rw [ea, eb, ec]
+  rw [hcell]; exact hm
+
+/-! ## the cell list has no duplicates -/
+
+theorem nbrOffsets_nodup (N : Nat) : (nbrOffsets N).Nodup := by
+  unfold nbrOffsets
+  split
+  · simp
+  · split <;> decide
+
+/-- shifting by scanned offsets is injective modulo the cell count -/
+theorem shift_inj (c : Int) (N : Nat) (hN : 0 < N) (o o' : Int) (ho : o ∈ nbrOffsets N) (ho' : o' ∈ nbrOffsets N)
+    (h : (c + (N : Int) + o) % (N : Int) = (c + (N : Int) + o') % (N : Int)) : o = o' := by
+  have h0 := Int.emod_eq_emod_iff_emod_sub_eq_zero.1 h
+  have e : c + (N : Int) + o - (c + (N : Int) + o') = o - o' := by ring
+  rw [e] at h0
+  exact nbrOffsets_distinct N hN o ho o' ho' h0
+
+/-- a triple product list is duplicate-free when the component lists are and the combining function is injective on them -/
+theorem nodup_triple {β : Type} (A B C : List Int) (f : Int → Int → Int → β) (hA : A.Nodup) (hB : B.Nodup) (hC : C.Nodup)
+    (hinj : ∀ a ∈ A, ∀ b ∈ B, ∀ c ∈ C, ∀ a' ∈ A, ∀ b' ∈ B, ∀ c' ∈ C, f a b c = f a' b' c' → a = a' ∧ b = b' ∧ c = c') :
+    (A.flatMap fun a => B.flatMap fun b => C.map fun c => f a b c).Nodup := by
+  rw [List.nodup_flatMap]
+  refine ⟨fun a ha => ?_, hA.pairwise_of_forall_ne fun a ha a' ha' hne => ?_⟩
+  · rw [List.nodup_flatMap]
+    refine ⟨fun b hb => ?_, hB.pairwise_of_forall_ne fun b hb b' hb' hne => ?_⟩
+    · exact hC.map_on fun c hc c' hc' h => (hinj a ha b hb c hc a ha b hb c' hc' h).2.2
+    · intro x hx hx'
+      obtain ⟨c, hc, rfl⟩ := List.mem_map.1 hx
+      obtain ⟨c', hc', h⟩ := List.mem_map.1 hx'
+      exact hne (hinj a ha b' hb' c' hc' a ha b hb c hc h).2.1.symm
+  · intro x hx hx'
+    obtain ⟨b, hb, hx⟩ := List.mem_flatMap.1 hx
+    obtain ⟨c, hc, rfl⟩ := List.mem_map.1 hx
+    obtain ⟨b', hb', hx'⟩ := List.mem_flatMap.1 hx'
+    obtain ⟨c', hc', h⟩ := List.mem_map.1 hx'
+    exact hne (hinj a' ha' b' hb' c' hc' a ha b hb c hc h).1.symm
+
+/-- **the cell list of `InitializeGrid` is duplicate-free**, for 1, 2 and ≥ 3 cells per direction in any combination -/
+theorem cellsFor_nodup (Ns : Nat × Nat × Nat) (c : Cell) (h1 : 0 < Ns.1) (h2 : 0 < Ns.2.1) (h3 : 0 < Ns.2.2) :
+    (cellsFor Ns c).Nodup := by
+  obtain ⟨na, nb, nc⟩ := Ns
+  simp only [cellsFor]
+  rw [List.nodup_cons]
+  refine ⟨fun hmem => ?_, List.Nodup.filter _ ?_⟩
+  · have := (List.mem_filter.1 hmem).2
+    simp at this
+  · apply nodup_triple _ _ _ _ (nbrOffsets_nodup na) (nbrOffsets_nodup nb) (nbrOffsets_nodup nc)
+    intro a ha b hb c' hc a' ha' b' hb' c'' hc' h
+    simp only [Prod.mk.injEq] at h
+    exact ⟨shift_inj _ na h1 a a' ha ha' h.1, shift_inj _ nb h2 b b' hb hb' h.2.1, shift_inj _ nc h3 c' c'' hc hc' h.2.2⟩
+
+/-! ## the cell counts of the code meet the height condition -/
+
+/-- `cellCount` is positive, and either 1 or so small that `N` cutoffs fit into the height (`hsq` is the squared height) -/
+theorem cellCount_spec (hsq rc : Rat) (hrc : 0 < rc) :
+    0 < cellCount hsq rc ∧ (cellCount hsq rc = 1 ∨ ((cellCount hsq rc : Rat) * rc) ^ 2 ≤ hsq) := by
+  unfold cellCount
+  refine ⟨by omega, ?_⟩
+  by_cases hk : isqrtFloor (hsq / (rc * rc)) ≤ 1
+  · left; omega
+  · right
+    have hmax : max (isqrtFloor (hsq / (rc * rc))) 1 = isqrtFloor (hsq / (rc * rc)) := by omega
+    rw [hmax]
+    unfold isqrtFloor at hk ⊢
+    set q := hsq / (rc * rc) with hq
+    have hsq_le := Nat.sqrt_le q.floor.toNat
+    have hk2 : 2 ≤ Nat.sqrt q.floor.toNat := by omega
+    have hpos : 0 < q.floor.toNat := by nlinarith
+    have hfl : (0 : Int) < q.floor := by
+      by_contra hneg
+      have : q.floor.toNat = 0 := Int.toNat_of_nonpos (by omega)
+      omega
+    have hcast : ((q.floor.toNat : Nat) : Int) = q.floor := Int.toNat_of_nonneg (by omega)
+    have hfq : ((q.floor : Int) : Rat) ≤ q := Rat.floor_le q
+    have h1 : ((Nat.sqrt q.floor.toNat : Nat) : Rat) * (Nat.sqrt q.floor.toNat : Rat) ≤ q := by
+      have h2 : ((Nat.sqrt q.floor.toNat * Nat.sqrt q.floor.toNat : Nat) : Rat) ≤ ((q.floor.toNat : Nat) : Rat) := by exact_mod_cast hsq_le
+      have h3 : ((q.floor.toNat : Nat) : Rat) = ((q.floor : Int) : Rat) := by exact_mod_cast congrArg (fun z : Int => (z : Rat)) hcast
+      push_cast at h2
+      linarith
+    have hrr : 0 < rc * rc := by positivity
+    have hq' : q * (rc * rc) = hsq := by rw [hq]; field_simp
+    calc ((Nat.sqrt q.floor.toNat : Rat) * rc) ^ 2 = ((Nat.sqrt q.floor.toNat : Rat) * (Nat.sqrt q.floor.toNat : Rat)) * (rc * rc) := by ring
+      _ ≤ q * (rc * rc) := by apply mul_le_mul_of_nonneg_right h1 (le_of_lt hrr)
+      _ = hsq := hq'
+
+/-- a squared height `det² / |n|²` bounds `(N rc)² |n|² ≤ det²` (the form `short_vector_within_one_cell` asks for) -/
+theorem height_form (det rc : Rat) (n : V3) (N : Nat) (hn : 0 < n.normSq)
+    (h : ((N : Rat) * rc) ^ 2 ≤ det * det / n.normSq) : ((N : Rat) * rc) ^ 2 * n.normSq ≤ det ^ 2 := by
+  have := mul_le_mul_of_nonneg_right h (le_of_lt hn)
+  have e : det * det / n.normSq * n.normSq = det ^ 2 := by field_simp
+  rw [e] at this; exact this
+
+theorem normSq_nonneg (n : V3) : 0 ≤ n.normSq := by
+  simp only [V3.normSq, V3.dot]; nlinarith [mul_self_nonneg n.x, mul_self_nonneg n.y, mul_self_nonneg n.z]
+
+/-- with a non-zero determinant none of the three plane normals vanishes -/
+theorem normals_pos (B : Box) (hdet : B.det ≠ 0) :
+    0 < (V3.cross B.b B.c).normSq ∧ 0 < (V3.cross B.c B.a).normSq ∧ 0 < (V3.cross B.a B.b).normSq := by
+  have key : ∀ n : V3, n.normSq = 0 → n.x = 0 ∧ n.y = 0 ∧ n.z = 0 := by
+    intro n h
+    simp only [V3.normSq, V3.dot] at h
+    refine ⟨?_, ?_, ?_⟩ <;> nlinarith [mul_self_nonneg n.x, mul_self_nonneg n.y, mul_self_nonneg n.z]
+  refine ⟨?_, ?_, ?_⟩
+  · rcases (normSq_nonneg (V3.cross B.b B.c)).lt_or_eq with h | h
+    · exact h
+    · obtain ⟨hx, hy, hz⟩ := key _ h.symm
+      exfalso; apply hdet
+      simp only [Box.det, V3.dot]; rw [hx, hy, hz]; ring
+  · rcases (normSq_nonneg (V3.cross B.c B.a)).lt_or_eq with h | h
+    · exact h
+    · obtain ⟨hx, hy, hz⟩ := key _ h.symm
+      exfalso; apply hdet
+      simp only [V3.cross] at hx hy hz
+      simp only [Box.det, V3.dot, V3.cross]; linear_combination B.b.x * hx + B.b.y * hy + B.b.z * hz
+  · rcases (normSq_nonneg (V3.cross B.a B.b)).lt_or_eq with h | h
+    · exact h
+    · obtain ⟨hx, hy, hz⟩ := key _ h.symm
+      exfalso; apply hdet
+      simp only [V3.cross] at hx hy hz
+      simp only [Box.det, V3.dot, V3.cross]; linear_combination B.c.x * hx + B.c.y * hy + B.c.z * hz
+
+/-! ## end to end -/
+
+/-- the result of the minimum-image routine is a periodic image of the plain difference, for both periodic box types
+    (an orthorhombic box is a diagonal matrix) -/
+theorem mic_is_image (bt : BoxType) (B : Box) (hbt : bt ≠ .open_) (hdiag : bt = .ortho → B.isDiagonal = true) (ri rj : V3) :
+    ∃ k1 k2 k3 : Int, rj - ri = mic bt B ri rj + B.lattice k1 k2 k3 := by
+  cases bt with
+  | open_ => exact absurd rfl hbt
+  | ortho =>
+    obtain ⟨k1, k2, k3, h⟩ := ortho_lattice B ri rj
+    have hd := hdiag rfl
+    simp only [Box.isDiagonal, Bool.and_eq_true, beq_iff_eq] at hd
+    obtain ⟨⟨⟨⟨⟨h1, h2⟩, h3⟩, h4⟩, h5⟩, h6⟩ := hd
+    refine ⟨k1, k2, k3, ?_⟩
+    simp only [mic]
+    rw [h]
+    apply V3.ext3 <;> simp [Box.lattice, h1, h2, h3, h4, h5, h6]
+  | tri =>
+    obtain ⟨k1, k2, k3, h⟩ := tri_lattice B ri rj
+    refine ⟨k1, k2, k3, ?_⟩
+    simp only [mic]
+    rw [h]
+    apply V3.ext3 <;> simp
+
+/-- **the grid search on real coordinates is exact.**  For every periodic box with non-zero determinant (orthorhombic or
+    triclinic, however skewed), every positive cutoff — larger than the box in some directions or not —, the cell counts
+    and cell lists `NBListGrid` constructs, and every bead list and coordinates: the pairs reported by the grid search are
+    exactly (a permutation of) the pairs of the O(N²) search, each unordered pair within the cutoff once. -/
+theorem grid_search_exact (bt : BoxType) (B : Box) (rc : Rat) (pos : Nat → V3)
+    (hbt : bt ≠ .open_) (hdiag : bt = .ortho → B.isDiagonal = true) (hdet : B.det ≠ 0) (hrc : 0 < rc) (beads : List Nat) :
+    (gridPairs (fun i => cellOf B (cellCounts B rc) (pos i)) (fun i => cellsFor (cellCounts B rc) (cellOf B (cellCounts B rc) (pos i)))
+      (closeB bt B rc pos) beads).Perm (brutePairs (closeB bt B rc pos) beads) := by
+  obtain ⟨na, nb, nc⟩ := normals_pos B hdet
+  have sa := cellCount_spec (B.det * B.det / (V3.cross B.b B.c).normSq) rc hrc
+  have sb := cellCount_spec (B.det * B.det / (V3.cross B.c B.a).normSq) rc hrc
+  have sc := cellCount_spec (B.det * B.det / (V3.cross B.a B.b).normSq) rc hrc
+  have hNs : cellCounts B rc = (cellCount (B.det * B.det / (V3.cross B.b B.c).normSq) rc,
+      cellCount (B.det * B.det / (V3.cross B.c B.a).normSq) rc, cellCount (B.det * B.det / (V3.cross B.a B.b).normSq) rc) := by
+    simp [cellCounts, heightsSq]
+  apply grid_exact
+  · intro b
+    apply cellsFor_nodup <;> rw [hNs]
+    · exact sa.1
+    · exact sb.1
+    · exact sc.1
+  · intro e b hclose
+    simp only [closeB, decide_eq_true_eq] at hclose
+    obtain ⟨k1, k2, k3, himg⟩ := mic_is_image bt B hbt hdiag (pos e) (pos b)
+    apply neighbour_cell_listed B (cellCounts B rc) rc (pos e) (pos b) (mic bt B (pos e) (pos b)) k1 k2 k3 hdet hrc
+    · rw [hNs]; exact sa.1
+    · rw [hNs]; exact sb.1
+    · rw [hNs]; exact sc.1
+    · rw [hNs]; exact sa.2.imp id fun h => height_form _ _ _ _ na h
+    · rw [hNs]; exact sb.2.imp id fun h => height_form _ _ _ _ nb h
+    · rw [hNs]; exact sc.2.imp id fun h => height_form _ _ _ _ nc h
+    · exact hclose
+    · exact himg
+
+/-- two lists (`Generate(list1, list2)`) on real coordinates -/
+theorem grid_search_exact2 (bt : BoxType) (B : Box) (rc : Rat) (pos : Nat → V3)
+    (hbt : bt ≠ .open_) (hdiag : bt = .ortho → B.isDiagonal = true) (hdet : B.det ≠ 0) (hrc : 0 < rc) (l1 l2 : List Nat) :
+    (gridPairs2 (fun i => cellOf B (cellCounts B rc) (pos i)) (fun i => cellsFor (cellCounts B rc) (cellOf B (cellCounts B rc) (pos i)))
+      (closeB bt B rc pos) l1 l2).Perm (brutePairs2 (closeB bt B rc pos) l1 l2) := by
+  obtain ⟨na, nb, nc⟩ := normals_pos B hdet
+  have sa := cellCount_spec (B.det * B.det / (V3.cross B.b B.c).normSq) rc hrc
+  have sb := cellCount_spec (B.det * B.det / (V3.cross B.c B.a).normSq) rc hrc
+  have sc := cellCount_spec (B.det * B.det / (V3.cross B.a B.b).normSq) rc hrc
+  have hNs : cellCounts B rc = (cellCount (B.det * B.det / (V3.cross B.b B.c).normSq) rc,
+      cellCount (B.det * B.det / (V3.cross B.c B.a).normSq) rc, cellCount (B.det * B.det / (V3.cross B.a B.b).normSq) rc) := by
+    simp [cellCounts, heightsSq]
+  apply grid_exact2
+  · intro b
+    apply cellsFor_nodup <;> rw [hNs]
+    · exact sa.1
+    · exact sb.1
+    · exact sc.1
+  · intro e b hclose
+    simp only [closeB, decide_eq_true_eq] at hclose
+    obtain ⟨k1, k2, k3, himg⟩ := mic_is_image bt B hbt hdiag (pos e) (pos b)
+    apply neighbour_cell_listed B (cellCounts B rc) rc (pos e) (pos b) (mic bt B (pos e) (pos b)) k1 k2 k3 hdet hrc
+    · rw [hNs]; exact sa.1
+    · rw [hNs]; exact sb.1
+    · rw [hNs]; exact sc.1
+    · rw [hNs]; exact sa.2.imp id fun h => height_form _ _ _ _ na h
+    · rw [hNs]; exact sb.2.imp id fun h => height_form _ _ _ _ nb h
+    · rw [hNs]; exact sc.2.imp id fun h => height_form _ _ _ _ nc h
+    · exact hclose
+    · exact himg
+
+/-! non-vacuity: a skewed triclinic box (det 24), cutoff 1: the hypotheses of `grid_search_exact` hold, there are 2 x 2 x 4 cells,
+    and two beads on opposite faces are within the cutoff through the periodic boundary -/
+example : let B : Box := ⟨⟨2, 0, 0⟩, ⟨1, 3, 0⟩, ⟨1, 1, 4⟩⟩
+    B.det ≠ 0 ∧ cellCounts B 1 = (1, 2, 4) ∧
+    closeB .tri B 1 (fun i => if i = 0 then ⟨1/10, 1/10, 1/10⟩ else ⟨1, 1, 39/10⟩) 0 1 = true := by decide +kernel
 
 end Votca.C03
